@@ -279,18 +279,9 @@ func renderStr(res any, err error) string {
 // callAll invokes the six entry points by reflection; strict ones only when `in` has the static type.
 func callAll(schema any, in reflect.Value, render func(any, error) string) string {
 	rv := reflect.ValueOf(schema)
-	// every entry point gets its own deep copy of the input (an overwrite may write through a pointer)
-	fresh := func(v reflect.Value) reflect.Value {
-		if !v.IsValid() {
-			return v
-		}
-		if v.Kind() == reflect.Pointer && !v.IsNil() {
-			p := reflect.New(v.Type().Elem())
-			p.Elem().Set(v.Elem())
-			return p
-		}
-		return v
-	}
+	// every entry point gets its own copy of the input (an overwrite may write through a pointer - also through a
+	// pointer that travels inside an `any`)
+	fresh := freshArg
 	call := func(name string, arg reflect.Value) string {
 		arg = fresh(arg)
 		m := rv.MethodByName(name)
@@ -304,7 +295,7 @@ func callAll(schema any, in reflect.Value, render func(any, error) string) strin
 			if len(res) == 2 && !res[1].IsNil() {
 				err = res[1].Interface().(error)
 			}
-			out = render(res[0].Interface(), err)
+			out = render(res[0].Interface(), err) + errTypeTag(err)
 		})
 		if pm != "" {
 			return "panic:" + strings.ReplaceAll(strings.ReplaceAll(pm, " ", "_"), ";", ",")
@@ -322,7 +313,8 @@ func callAll(schema any, in reflect.Value, render func(any, error) string) strin
 			defer func() {
 				if p := recover(); p != nil {
 					if e, ok := p.(error); ok {
-						out = render(nil, e)
+						// "panics with that same error": the panic VALUE is rendered like a returned error, dynamic type included
+						out = render(nil, e) + errTypeTag(e)
 					} else {
 						out = "panic:" + strings.ReplaceAll(fmt.Sprint(p), " ", "_")
 					}
@@ -353,6 +345,81 @@ func callAll(schema any, in reflect.Value, render func(any, error) string) strin
 }
 
 var anyT = reflect.TypeOf((*any)(nil)).Elem()
+
+// errTypeTag: "" for nil and for a bare *ZodError; otherwise the dynamic type (a wrapper around a ZodError renders like
+// the ZodError itself: the tag keeps "returns err" and "panics with a DIFFERENT value that unwraps to the same issues" apart).
+func errTypeTag(err error) string {
+	if err == nil {
+		return ""
+	}
+	if _, ok := err.(*gozod.ZodError); ok {
+		return ""
+	}
+	return "~as:" + strings.ReplaceAll(fmt.Sprintf("%T", err), " ", "")
+}
+
+// deepStr prints a value with every pointer followed (an address would make the line irreproducible and two equal
+// results look different), Stringers by their text, funcs / chans by their kind.
+func deepStr(rv reflect.Value, depth int) string {
+	if !rv.IsValid() {
+		return "nil"
+	}
+	if depth > 8 {
+		return "…"
+	}
+	if rv.CanInterface() {
+		switch rv.Kind() {
+		case reflect.Pointer, reflect.Interface, reflect.Map, reflect.Slice, reflect.Func, reflect.Chan:
+			if rv.IsNil() {
+				return "nil"
+			}
+		}
+		if st, ok := rv.Interface().(fmt.Stringer); ok {
+			return st.String()
+		}
+		if e, ok := rv.Interface().(error); ok {
+			return e.Error()
+		}
+	}
+	switch rv.Kind() {
+	case reflect.Pointer, reflect.Interface:
+		if rv.IsNil() {
+			return "nil"
+		}
+		return deepStr(rv.Elem(), depth+1)
+	case reflect.Struct:
+		var parts []string
+		for i := 0; i < rv.NumField(); i++ {
+			parts = append(parts, deepStr(rv.Field(i), depth+1))
+		}
+		return "{" + strings.Join(parts, " ") + "}"
+	case reflect.Slice, reflect.Array:
+		if rv.Kind() == reflect.Slice && rv.IsNil() {
+			return "nil"
+		}
+		if rv.Type().Elem().Kind() == reflect.Uint8 {
+			return fmt.Sprintf("%v", rv)
+		}
+		var parts []string
+		for i := 0; i < rv.Len(); i++ {
+			parts = append(parts, deepStr(rv.Index(i), depth+1))
+		}
+		return "[" + strings.Join(parts, " ") + "]"
+	case reflect.Map:
+		if rv.IsNil() {
+			return "nil"
+		}
+		var parts []string
+		for _, k := range rv.MapKeys() {
+			parts = append(parts, deepStr(k, depth+1)+":"+deepStr(rv.MapIndex(k), depth+1))
+		}
+		sort.Strings(parts)
+		return "map[" + strings.Join(parts, " ") + "]"
+	case reflect.Func, reflect.Chan, reflect.UnsafePointer:
+		return rv.Kind().String()
+	}
+	return fmt.Sprintf("%v", rv)
+}
 
 func runStr(o *hx.Out, r *hx.Rng, n int) {
 	for i := 0; i < n; i++ {
@@ -486,23 +553,7 @@ func gentries() []gentry {
 }
 
 func canon(v any) string {
-	rv := reflect.ValueOf(v)
-	for rv.IsValid() && (rv.Kind() == reflect.Pointer || rv.Kind() == reflect.Interface) {
-		if rv.IsNil() {
-			return "nil"
-		}
-		rv = rv.Elem()
-	}
-	if !rv.IsValid() {
-		return "nil"
-	}
-	switch rv.Kind() {
-	case reflect.Map, reflect.Slice:
-		if rv.IsNil() {
-			return "nil"
-		}
-	}
-	return strings.ReplaceAll(strings.ReplaceAll(fmt.Sprintf("%v", rv.Interface()), " ", "_"), ";", ",")
+	return strings.ReplaceAll(strings.ReplaceAll(deepStr(reflect.ValueOf(v), 0), " ", "_"), ";", ",")
 }
 
 func renderGen(res any, err error) string {
@@ -518,7 +569,12 @@ func renderGen(res any, err error) string {
 		sort.Strings(parts)
 		return "err:" + strings.ReplaceAll(strings.ReplaceAll(strings.ReplaceAll(strings.Join(parts, ","), " ", "_"), ";", ","), "=", "≈")
 	}
-	return "ok:" + strings.ReplaceAll(canon(res), "=", "≈")
+	// the Go shape of the result is part of it: a pointer and the value it points to are different answers where R = any
+	shape := ""
+	if rv := reflect.ValueOf(res); rv.IsValid() && rv.Kind() == reflect.Pointer && !rv.IsNil() {
+		shape = "&"
+	}
+	return "ok:" + shape + strings.ReplaceAll(canon(res), "=", "≈")
 }
 
 func conv(v any, t reflect.Type) (reflect.Value, bool) {
@@ -658,7 +714,13 @@ func main() {
 		nHistInt = 40000
 	}
 	runHistInt(o, r, nHistInt)
-	if err := o.Close(map[string]any{"seed": c.Seed, "tier": c.Tier}); err != nil {
+	runDirected(o, r, aim, c.Thorough())
+	missing := unregisteredCtors(*repoRoot)
+	nCtors := 0
+	for _, cs := range zeroArgCtors {
+		nCtors += len(cs)
+	}
+	if err := o.Close(map[string]any{"seed": c.Seed, "tier": c.Tier, "unregistered_ctors": missing, "registered_ctors": nCtors}); err != nil {
 		fmt.Fprintln(os.Stderr, err)
 		os.Exit(3)
 	}
